@@ -107,6 +107,21 @@ func (g *Gateway) setSendReceiveBuffers(conn net.Conn) error {
 		return nil
 	}
 
+	// without tls the connection is the tcp connection itself
+	if tcp, ok := conn.(*net.TCPConn); ok {
+		if g.ReceiveBuf > 0 {
+			if err := tcp.SetReadBuffer(g.ReceiveBuf); err != nil {
+				return err
+			}
+		}
+		if g.SendBuf > 0 {
+			if err := tcp.SetWriteBuffer(g.SendBuf); err != nil {
+				return err
+			}
+		}
+		return nil
+	}
+
 	// conn == tls.Tunnel
 	ptr := reflect.ValueOf(conn)
 	val := reflect.Indirect(ptr)
